@@ -50,7 +50,9 @@ Fails(t) ==
       others(st) == Without(st, t.id)
       resp == IF t.ret.has THEN {ToSpec(t.ret.v)} ELSE {}
   IN
-  CASE t.op = "New" -> If(t.post = t.pre, "initial-publications-used")
+  \* first read (ListPublications = post, the PullPublications seed = seed) against the option sequence (as the
+  \* harness handed it over, records in the format of this file) folded by ConfPubs
+  CASE t.op = "New" -> If(t.post = ConfPubs(t.opts), "initial-publications-used") \cup If(t.seed = t.post, "pull-seed-is-first-read")
     [] t.op \in {"Create", "Update"} ->
          LET r == IF t.op = "Create" THEN Create(pre, t.now, w) ELSE Update(pre, t.now, w, t.mask, vok) IN
          IF r.err # "OK" THEN If(t.err = r.err, "err") \cup If(post = pre, "failed-write-changed-state")
